@@ -17,8 +17,8 @@
   (Spec/Lift.lean: `expectedDeser` = constructor ∘ `liftDoc`): it
   is evaluated by the driver on every case as the oracle for the real Deserializer; its agreement
   with `deserialize` is proved on the exact fragment (`deserialize_exact_partial`: scalars, enums,
-  Array/Deque/Tuple (uniqueItems over plain scalars), nested classes, any depth) and checked by correspondence
-  elsewhere.
+  Array/Deque/Tuple (uniqueItems over plain scalars), Set of strings, Map from strings, Optional, NoneField, nested
+  classes and StructureReference, any depth) and checked by correspondence elsewhere.
 -/
 import TypedpyModel.Lemmas.DeserErr
 import TypedpyModel.Lemmas.LiftEquiv
@@ -118,7 +118,7 @@ theorem deserialize_exact_partial (O : Oracles) (opts : DeserOpts) (c : ClassOpt
     deserialize O opts (.struct c fields defaults) d = .ok x
       ↔ expectedDeser O opts (.struct c fields defaults) d = some x := by
   simp only [exactDecl, and_true_iff] at hex
-  obtain ⟨⟨⟨_, _⟩, hnd⟩, hef⟩ := hex
+  obtain ⟨⟨_, hnd⟩, hef⟩ := hex
   have hnd' : (fields.map (·.1)).Nodup := by simpa using hnd
   cases d with
   | dict kvs =>
@@ -258,6 +258,39 @@ theorem exact_optional_example :
       | .error _ => true | _ => false) = true
     ∧ (expectedDeser exO {} exOptCls (.dict [(.str "o", .int (-1)), (.str "xs", .list [])])).isNone = true
     ∧ (expectedDeser exO {} exOptCls (.dict [(.str "xs", .list [.int 3])])).isNone = true := by
+  decide
+
+/-- StructureReference and NoneField inside the exact fragment: an inline class (with its own undeclared-key
+    policy) nested in an array, next to a field that only admits None; the nested object is validated by
+    the inline class; an undeclared key inside a closed inline class is rejected (model and specification alike)
+    when the flags keep it, and dropped when they drop it -/
+def exInlineCls : FieldDecl :=
+  .struct { name := "H", required := ["pts"], addl := false, accepts := ["H"] }
+    [("pts", .seqOf .list (.struct { name := "StructureReference_1", required := ["x"], addl := false, inline := true }
+                [("x", .integer { min := some ⟨0, 1⟩ }), ("tag", .string none none none)] []) {}),
+     ("nothing", .noneF)] []
+
+theorem exact_inline_example :
+    exactDecl exInlineCls = true
+    ∧ strictJson (.dict [(.str "pts", .list [.dict [(.str "x", .int 3)], .dict [(.str "x", .int 0), (.str "tag", .str "")]])]) = true
+    ∧ (match deserialize exO {} exInlineCls
+          (.dict [(.str "pts", .list [.dict [(.str "x", .int 3)], .dict [(.str "x", .int 0), (.str "tag", .str "")]])]) with
+      | .ok (.inst "H" [("pts", .list [.inst "StructureReference_1" [("x", .int 3)],
+                                       .inst "StructureReference_1" [("x", .int 0), ("tag", .str "")]])]) => true
+      | _ => false) = true
+    ∧ (match expectedDeser exO {} exInlineCls
+          (.dict [(.str "pts", .list [.dict [(.str "x", .int 3)], .dict [(.str "x", .int 0), (.str "tag", .str "")]])]) with
+      | some (.inst "H" _) => true | _ => false) = true
+    ∧ (match deserialize exO { keepUndefined := true, ignoreInvalidAddl := false } exInlineCls
+          (.dict [(.str "pts", .list [.dict [(.str "x", .int 3), (.str "zz", .int 1)]])]) with
+      | .error _ => true | _ => false) = true
+    ∧ (expectedDeser exO { keepUndefined := true, ignoreInvalidAddl := false } exInlineCls
+          (.dict [(.str "pts", .list [.dict [(.str "x", .int 3), (.str "zz", .int 1)]])])).isNone = true
+    ∧ (match deserialize exO {} exInlineCls (.dict [(.str "pts", .list [.dict [(.str "x", .int 3), (.str "zz", .int 1)]])]) with
+      | .ok (.inst "H" [("pts", .list [.inst "StructureReference_1" [("x", .int 3)]])]) => true | _ => false) = true
+    ∧ (match deserialize exO {} exInlineCls (.dict [(.str "pts", .list []), (.str "nothing", .int 0)]) with
+      | .error _ => true | _ => false) = true
+    ∧ (expectedDeser exO {} exInlineCls (.dict [(.str "pts", .list []), (.str "nothing", .int 0)])).isNone = true := by
   decide
 
 /-! ### the extension kinds (Sem/SerdeX.lean): DecimalNumber, Enum by value, DateField / DateTime -/
